@@ -866,6 +866,9 @@ class Registry:
         if isinstance(v, ast.Attribute) and v.attr == 'columns':
             owner = self.P.resolve_class(module, v.value)
             if isinstance(owner, ClassInfo):
+                self.record_of = getattr(self, 'record_of', {})
+                if owner.fq in self.record_of:
+                    self.record_of[ci.fq] = self.record_of[owner.fq]
                 return self.tables.get(owner.fq, {})   # same object: alias
         if isinstance(v, ast.Call):
             d = module.dotted(v.func)
